@@ -308,6 +308,23 @@ func (x *fx) loopEnv(li *loopInfo, phiVals map[*ssa.Phi]*Val, mem *memNode) *spe
 		}
 		byName[phi.Name()] = v
 	}
+	// a source variable that DebugRefs bind to a header phi (e.g. the variable of
+	// `for i := range n`, whose phi is commented rangeint.iter)
+	for bi := range li.body {
+		for _, in := range x.fn.Blocks[bi].Instrs {
+			if d, ok := in.(*ssa.DebugRef); ok && !d.IsAddr {
+				if phi, ok := d.X.(*ssa.Phi); ok && phi.Block() == li.header {
+					if obj := d.Object(); obj != nil {
+						if _, dup := byName[obj.Name()]; !dup {
+							if v, ok := phiVals[phi]; ok {
+								byName[obj.Name()] = v
+							}
+						}
+					}
+				}
+			}
+		}
+	}
 	env.look = func(name string) *Val {
 		if v, ok := byName[name]; ok {
 			return v
